@@ -232,6 +232,25 @@ class RawExportOb(ExportOb):
                        region(why, lr) if why else None)
 
 
+# scripts in which one table may carry several roles at once (all table names free, so "the table the bare SELECT reads
+# is the chain's intermediate table" is one of the solver's cases): the summary must agree with the accessors there too
+ROLE_SCRIPTS = {
+    "chain_then_select": ["INSERT INTO zqt1 SELECT ca FROM zqt2", "INSERT INTO zqt3 SELECT ca FROM zqt4", "SELECT ca FROM zqt5"],
+    "create_then_chain": ["CREATE TABLE zqt1 (ca int)", "INSERT INTO zqt2 SELECT ca FROM zqt3", "INSERT INTO zqt4 SELECT ca FROM zqt5"],
+    "select_first": ["SELECT ca FROM zqt1", "INSERT INTO zqt2 SELECT ca FROM zqt3", "INSERT INTO zqt4 SELECT ca FROM zqt5"],
+    "self_insert_in_chain": ["INSERT INTO zqt1 SELECT ca FROM zqt2 JOIN zqt3 ON zqt2.id = zqt3.id", "INSERT INTO zqt4 SELECT ca FROM zqt5"],
+    "two_selects_one_write": ["SELECT ca FROM zqt1", "CREATE TABLE zqt2 (ca int)", "INSERT INTO zqt3 SELECT ca FROM zqt4"],
+}
+
+
+class RoleScriptOb(RawExportOb):
+    def __init__(self, name, stmts):
+        self.dialect, self.stmts, self.quotes = "ansi", list(stmts), {}
+        self.sql = ";\n".join(stmts)
+        self.key = "roles/" + name
+        self.slots = list(dict.fromkeys(m.lower() for q in stmts for m in PLACEHOLDER.findall(q)))
+
+
 def obligations(tier, seed):
     import random
 
@@ -246,4 +265,5 @@ def obligations(tier, seed):
         obs = keep + rnd.sample(rest, len(rest) // 3)
     obs += [ChainExportOb(n, s) for n, s in SHAPES.items()]
     obs += [RawExportOb(n, d, q) for n, (d, q) in RAW.items()]
+    obs += [RoleScriptOb(n, q) for n, q in ROLE_SCRIPTS.items()]
     return obs
